@@ -413,6 +413,38 @@ example := C12_tone_after_syllable ⟨fun _ => true, fun _ => false, false, 0⟩
 
 /-! ## C12_one_cluster -/
 
+/-- **the width test is taken per mark.**  Two syllable chunks in ONE run, each followed by a tone mark (`C12_tone_after_syllable`
+    twice): the first mark is placed by `zeroW` of ITS code point, the second by `zeroW` of its own — U+302E and U+302F are two
+    glyphs with their own advances, so one may stay behind its syllable while the other moves in front, in either order. -/
+theorem C12_tone_marks_each_by_own_width (c : Cfg) (pre tail1 tail2 post : List G) (x1 tn1 x2 tn2 : G) (syl1 syl2 : List K)
+    (hx1 : isL x1.cp = true ∨ isCombinedS x1.cp = true)
+    (hp1 : parse (sup c) (key x1) (keys tail1 ++ key tn1 :: keys (x2 :: tail2 ++ tn2 :: post)) = (syl1, tail1.length))
+    (hs1 : syl1 ≠ []) (ht1 : isTone tn1.cp = true)
+    (hx2 : isL x2.cp = true ∨ isCombinedS x2.cp = true)
+    (hp2 : parse (sup c) (key x2) (keys tail2 ++ key tn2 :: keys post) = (syl2, tail2.length))
+    (hs2 : syl2 ≠ []) (ht2 : isTone tn2.cp = true) :
+    ∃ a b r, preprocess c pre = some a ∧ preprocess c post = some b ∧
+      preprocess c (pre ++ x1 :: tail1 ++ tn1 :: (x2 :: tail2 ++ tn2 :: post)) = some r ∧
+      keys r = keys a ++ (if c.zeroW tn1.cp = true then syl1 ++ [key tn1] else key tn1 :: syl1)
+                      ++ (if c.zeroW tn2.cp = true then syl2 ++ [key tn2] else key tn2 :: syl2) ++ keys b := by
+  obtain ⟨a, b1, r, ha, hb1, hr, hk⟩ :=
+    C12_tone_after_syllable c pre tail1 (x2 :: tail2 ++ tn2 :: post) x1 tn1 syl1 hx1 hp1 hs1 ht1
+  obtain ⟨a2, b, r2, ha2, hb, hr2, hk2⟩ := C12_tone_after_syllable c [] tail2 post x2 tn2 syl2 hx2 hp2 hs2 ht2
+  have he : preprocess c [] = some [] := by
+    unfold preprocess; rw [run]; simp
+  rw [he] at ha2
+  cases ha2
+  rw [List.nil_append] at hr2
+  rw [hr2] at hb1
+  cases hb1
+  refine ⟨a, b, r, ha, hb, hr, ?_⟩
+  rw [hk, hk2]
+  simp [keys, List.append_assoc]
+
+example := C12_tone_marks_each_by_own_width ⟨fun _ => true, fun u => u == 0x302E, false, 1⟩ [] [] [] []
+  ⟨0xAC00, 0, 0⟩ ⟨0x302E, 1, 0⟩ ⟨0xB098, 2, 0⟩ ⟨0x302F, 3, 0⟩ [(0xAC00, 0)] [(0xB098, 0)]
+  (by decide) (by decide) (by simp) (by decide) (by decide) (by decide) (by simp) (by decide)
+
 /-- **One cluster, at the iteration.** At cluster level 0 (monotone graphemes), in *any* loop state — whatever is
     already in the out-buffer and whatever follows — the iteration that recognises a syllable at the current
     glyph `x` (i.e. the abstract parser renders it with `syl ≠ []`: any of the composed / decomposed / tagged
